@@ -169,6 +169,9 @@ def check_pipeline(spec):
         pipe = KC.KDSingleCollatorWrapper(colls[0], dataset_mode=mode_str, return_ctx=spec["return_ctx"])
     if spec.get("decoy") == "after":
         decoy()
+    if spec.get("fluent"):
+        # the fluent form: what set_rng hands back is used as the collate function
+        pipe = pipe.set_rng(np.random.default_rng(5))
     samples = _make_samples(spec)
     counter = {"batch": 0}
     real = base.default_collate
@@ -257,6 +260,8 @@ def check_shipped(spec):
     B = spec["B"]
     xs = [torch.full((1, 4, 4), float(b + 1)) for b in range(B)]
     ys = [torch.nn.functional.one_hot(torch.tensor(b % 3), 3).float() for b in range(B)]
+    if spec.get("binary"):
+        ys = [torch.tensor(float(b % 2)) for b in range(B)]  # binary task: one number in [0, 1] per sample, the batch field is (B,)
     samples = [((xs[b].clone(), ys[b].clone()), {"tag": torch.tensor(float(b))}) for b in range(B)]
     colls = []
     for name in spec["colls"]:
@@ -282,7 +287,7 @@ def check_shipped(spec):
         return Case(True, spec["colls"] + ["dict-second"])
     pipe = KC.KDComposeCollator(colls, dataset_mode="x class", return_ctx=True)
     (x, y), ctx = pipe(samples)
-    if tuple(x.shape) != (B, 1, 4, 4) or tuple(y.shape) != (B, 3):
+    if tuple(x.shape) != (B, 1, 4, 4) or tuple(y.shape) != ((B,) if spec.get("binary") else (B, 3)):
         raise Violation("shipped:layout", f"{tuple(x.shape)} {tuple(y.shape)}")
     need = {"tag"} | ({"apply", "use_cutmix", "lambda"} if "mix" in spec["colls"] else set()) | ({"mask"} if "dino" in spec["colls"] else set())
     if set(ctx) != need:
@@ -300,7 +305,7 @@ def check_shipped(spec):
             p_ = (i - 1) % B
             ex = lam[i] * (i + 1) + (1 - lam[i]) * (p_ + 1)
             ey = lam[i] * ys[i] + (1 - lam[i]) * ys[p_]
-            if abs(float(x[i].flatten()[0]) - ex) > 1e-4 or float((y[i] - ey).abs().max()) > 1e-4:
+            if abs(float(x[i].flatten()[0]) - ex) > 1e-4 or float((y[i] - ey).abs().max()) > 1e-4 or y[i].shape != ey.shape:
                 raise Violation("shipped:mix-member-did-not-mix-the-containers-x-and-class", f"row {i}: x {float(x[i].flatten()[0]):.4f} expected {ex:.4f}, "
                                                                                             f"y {y[i].tolist()} expected {ey.tolist()}")
     return Case(len(spec["colls"]) >= 2, spec["colls"])
@@ -327,6 +332,9 @@ def check_padding(spec):
                 vals.append(b * 0.1 + 1.0 / 3.0)  # a plain python float (regression target): default collation makes it float64
             elif kind == "scalar_t":
                 vals.append(torch.tensor(float(b)))
+            elif kind == "views":
+                v = torch.full((3,), float(b + 1 + j))
+                vals.append((v, -v))  # one item that is itself a tuple (two fixed-size views of the sample)
             else:
                 vals.append(b * 3 + j)
         item = vals[0] if len(vals) == 1 else tuple(vals)
@@ -358,6 +366,11 @@ def check_padding(spec):
                     raise Violation("padding:original-content-changed", f"field {j} sample {b}")
                 if f[b, c.shape[0]:].abs().sum() != 0:
                     raise Violation("padding:pad-value-not-zero", f"field {j} sample {b}")
+        elif kind == "views":
+            # container type (list / tuple) of the collated pair is not promised; its two members are
+            exp = default_collate(col)
+            if not (isinstance(f, (list, tuple)) and len(f) == 2 and all(torch.is_tensor(a) and a.shape == e.shape and torch.equal(a, e) for a, e in zip(f, exp))):
+                raise Violation("padding:tuple-item-lost-or-changed", f"field {j}: {_short(f)}")
         else:
             exp = default_collate(col)
             if not _struct_eq(f, exp) or (torch.is_tensor(exp) and (not torch.is_tensor(f) or f.dtype != exp.dtype or not torch.equal(f, exp))):
@@ -378,13 +391,13 @@ PIPE = st.fixed_dictionaries({
     "return_ctx": st.booleans(),
     "ctx_keys": st.lists(st.sampled_from(["a", "b", "view0"]), max_size=2, unique=True),
     "how": st.sampled_from(["compose", "compose", "compose", "single", "wrapper"]), "late": st.booleans(),
-    "silent": st.booleans(), "decoy": st.sampled_from([None, "before", "after"]),
+    "silent": st.booleans(), "decoy": st.sampled_from([None, "before", "after"]), "fluent": st.booleans(),
 })
-SHIPPED = st.fixed_dictionaries({"B": st.integers(2, 6), "colls": st.lists(st.sampled_from(["mix", "dino"]), min_size=1, max_size=3),
+SHIPPED = st.fixed_dictionaries({"B": st.integers(1, 6), "binary": st.booleans(), "colls": st.lists(st.sampled_from(["mix", "dino"]), min_size=1, max_size=3),
                                  "seed": st.integers(0, 999), "own_mode": st.booleans(), "dict_second": st.sampled_from([False, False, True])})
 PAD = st.fixed_dictionaries({
     "lens": st.lists(st.integers(1, 7), min_size=1, max_size=6),
-    "items": st.lists(st.sampled_from(["seq", "seq", "seq2", "seq3", "seq4", "scalar_t", "int", "pyfloat"]), min_size=1, max_size=4),
+    "items": st.lists(st.sampled_from(["seq", "seq", "seq2", "seq3", "seq4", "scalar_t", "int", "pyfloat", "views"]), min_size=1, max_size=4),
     "ctx": st.booleans(), "via": st.sampled_from(["compose_ctx", "collator_ctx"]),
 })
 
